@@ -7,6 +7,8 @@ use serde_json::Value;
 use crate::{
     runner::{finish_check, replay_plan, run_batch, threads, BatchCfg, BatchOut, CheckOut, Cx, Scenario, Tier},
     scen::offer::{Mode as OfferMode, Offer},
+    scen::forge::Forge,
+    scen::pair::{Mode as PairMode, Pair},
 };
 
 fn batch<S: Scenario>(s: &S, tier: Tier, seed: u64, quick_runs: u64, thorough_runs: u64, scale: f64) -> BatchOut {
@@ -29,6 +31,9 @@ pub fn run_property(prop: &str, tier: Tier, seed: u64, scale: f64) -> i32 {
     let exhaustive = None;
     let batches: Vec<BatchOut> = match prop {
         "C02" => vec![batch(&Offer { mode: OfferMode::State }, tier, seed, 60_000, 1_500_000, scale)],
+        "C01" => vec![batch(&Pair { mode: PairMode::Converge }, tier, seed, 40_000, 1_000_000, scale)],
+        "C03" => vec![batch(&Forge, tier, seed, 40_000, 1_000_000, scale)],
+        "C08" => vec![batch(&Pair { mode: PairMode::Differential }, tier, seed, 15_000, 400_000, scale)],
         "C13" => vec![batch(&Offer { mode: OfferMode::Heads }, tier, seed, 60_000, 1_500_000, scale)],
         _ => {
             eprintln!("harness error: unknown property {prop}");
@@ -43,6 +48,9 @@ fn replay_dispatch(prop: &str, scenario: &str, plan: Value) -> Result<(Option<cr
     match (prop, scenario) {
         (_, "offer") => replay_plan(&Offer { mode: OfferMode::State }, plan),
         (_, "offer-heads") => replay_plan(&Offer { mode: OfferMode::Heads }, plan),
+        (_, "forge") => replay_plan(&Forge, plan),
+        (_, "pair") => replay_plan(&Pair { mode: PairMode::Converge }, plan),
+        (_, "pair-diff") => replay_plan(&Pair { mode: PairMode::Differential }, plan),
         _ => Err(format!("unknown scenario {scenario} for {prop}")),
     }
 }
@@ -135,5 +143,8 @@ pub fn determinism(prop: Option<&str>, seeds: u64) -> i32 {
     let p = prop.unwrap_or("");
     if all || p == "C02" { twice(&Offer { mode: OfferMode::State }, seeds, &mut bad); }
     if all || p == "C13" { twice(&Offer { mode: OfferMode::Heads }, seeds, &mut bad); }
+    if all || p == "C03" { twice(&Forge, seeds, &mut bad); }
+    if all || p == "C01" { twice(&Pair { mode: PairMode::Converge }, seeds, &mut bad); }
+    if all || p == "C08" { twice(&Pair { mode: PairMode::Differential }, seeds, &mut bad); }
     if bad.is_empty() { 0 } else { for b in bad { eprintln!("NONDETERMINISM: {b}"); } 2 }
 }
